@@ -52,6 +52,18 @@ def OtherLocksNotAcrossExternal (sites : List (String × String × String × Str
 
 theorem other_locks_not_across_external_wait : OtherLocksNotAcrossExternal Gen.lockSites = true := by decide
 
+/-- the table is not empty-handed: the guards everybody knows about are in it (a translator that stops seeing the
+    collector's, the dispatcher's or the relay's guards proves nothing — this failed once, when `spawn(..)` arguments
+    were masked globally and every guard inside a spawned task vanished) -/
+def TableCovers (sites : List (String × String × String × String × List (String × Gen.AwaitClass))) : Bool :=
+  [("src/context.rs", "gc_thread", "terminated"), ("src/context.rs", "gc_thread", "alive"),
+   ("src/main.rs", "process_request", "ctx"), ("src/copy.rs", "copy_bidi", "ctx"),
+   ("src/common/h11c.rs", "h11c_handshake_inner", "ctx"), ("src/context.rs", "on_error", "ctx"),
+   ("src/connectors/quic.rs", "get_connection", "other")].all
+    (fun k => sites.any (fun s => s.1 == k.1 && s.2.1 == k.2.1 && s.2.2.1 == k.2.2))
+
+theorem lock_table_covers_known_sites : TableCovers Gen.lockSites = true := by decide
+
 /-- the two registry locks nest in one order only: the history list `terminated` first, then `alive` (the collector's
     order) — nowhere is `alive` held while `terminated` is awaited -/
 def RegistryOrder (sites : List (String × String × String × String × List (String × Gen.AwaitClass))) : Bool :=
